@@ -222,6 +222,47 @@ ROUND6 = {
  "C20-mutL": ("whitening clips the eigenvalues at 1e-12", "full-rank covariance of small absolute scale (interference plus noise in Watt)"),
 }
 
+ROUND7 = {
+ "C01-mutM": ("PSK.demodulate override with an M == 2 fast path (sign detector, phase offset ignored)", "PSK(2, phi != 0) (pi/2-BPSK)"),
+ "C01-mutN": ("power-of-two test M & (M - 1) together with linspace phases: PSK(0) is no longer rejected", "the unsupported cardinality 0"),
+ "C02-mutM": ("FFT window starts cp_size // 4 inside the prefix, compensated by a linear phase", "channel memory in the last quarter of the prefix"),
+ "C03-mutM": ("in-place TdlImpulseResponse.__imul__; SuChannel.get_last_impulse_response rescales the stored response on every read", "path loss set and the reported response read more than once"),
+ "C03-mutN": ("SISO flat-fading fast path taken when num_taps == 1 (not when the memory is 0)", "profile with exactly one tap at a non-zero delay"),
+ "C04-mutM": ("Alamouti.set_channel_matrix stores the channel before checking Nt == 2", "rejected channel (ValueError caught), then encode / decode on the same object"),
+ "C04-mutN": ("MRT precoder as conj(h)/|h| with a zero guard: a zero coefficient gets weight 0", "channel vector with an exactly zero entry"),
+ "C05-mutM": ("stop rule tested with `is not False`", "_keep_going returning numpy.bool_(False), 0 or None"),
+ "C05-mutN": ("combinations created with copy_params_dict=False share their mutable values", "user code modifying a list / array parameter of its combination in place"),
+ "C06-mutM": ("combine_simulation_results copies one empty Result shallowly for every variation (shared choice-count array)", "CHOICE results over more than one combination"),
+ "C06-mutN": ("merge_all_results guard `item in other_names`: num_skipped_reps merged twice", "both sets hold num_skipped_reps and self is not empty"),
+ "C07-mutM": ("periodic save moved inside the try, before the repetition counter is incremented", "rep_max > 500 and an interruption after a periodic save"),
+ "C07-mutN": ("load_partial_results refuses only when a list of differing CURRENT parameter names is non-empty", "restart after a parameter was removed from the configuration"),
+ "C08-mutM": ("last_noise replaced by the post-filtered noise", "noise and post filters together"),
+ "C08-mutN": ("randomize keeps the caller's integer Nr / Nt arrays (np.asarray)", "the caller updates its antenna-count array in place afterwards"),
+ "C09-mutM": ("EnhancedBD metric configuration dict became a class attribute updated in place", "two EnhancedBD objects configured with different stream counts"),
+ "C09-mutN": ("calc_receive_filter uses inv for square effective channels", "water-filling at low SNR (a stream without power)"),
+ "C10-mutM": ("P setter assigns the vector before validating it", "rejected power vector (ValueError caught), then the object keeps being used"),
+ "C11-mutM": ("ext-int covariance takes the interferer's columns from sum(Nr) instead of sum(Nt)", "total receive antennas != total transmit antennas"),
+ "C11-mutN": ("solver's interference sum loops over the receiving user's stream count", "users with different stream counts"),
+ "C12-mutM": ("channel-removal loop guard dLast > 1 (off by one)", "so little power that only the best channel should be used"),
+ "C12-mutN": ("water level read from the caller's order (mu = P[0] + floor[0])", "input not sorted best-first with a switched-off first channel"),
+ "C13-mutM": ("raise / clamp policy applied before the shadowing is added", "shadowing on and a short link"),
+ "C13-mutN": ("wall counts expanded with np.resize instead of broadcasting", "wall-count array with a trailing axis of size 1"),
+ "C14-mutM": ("skip with an optional default: `(num_samples or 1)`", "a skip of exactly 0 samples"),
+ "C14-mutN": ("shape setter draws the phases through an optional argument whose None means 'current shape'", "shape set back to None on a running generator"),
+ "C15-mutM": ("gray2binary shift loop clamps shifts to width - 1 bits", "unsigned 8 / 32-bit values with the top bit set"),
+ "C15-mutN": ("count_bit_errors counts bit planes up to level2bits(largest index)", "largest occurring index an exact power of two"),
+ "C16-mutM": ("PER derives its BER as SER / K", "QAM at low to moderate SNR"),
+ "C16-mutN": ("setConstellation validates the size after updating M and K", "rejected table (ValueError caught), then the modulator keeps being used"),
+ "C17-mutM": ("Result._to_dict writes an empty value list for MISC results", "MISC result with accumulate_values=True saved as JSON"),
+ "C17-mutN": ("extension-less load_from_file searches the formats in sorted order (.json before .pickle)", "an older sibling .json next to the .pickle just saved"),
+ "C18-mutM": ("cyclic extension by tiling and trimming with [:size - n]", "extension to an exact multiple of the base length"),
+ "C18-mutN": ("estimator fast path when no tap is discarded, returning before the normalisation factor", "normalised sequence, size multiplier 1, window >= allocation"),
+ "C19-mutM": ("distance matrix as sqrt(|u|^2 + |c|^2 - 2 u.c)", "cluster far from the origin relative to the cell size"),
+ "C19-mutN": ("containment as a convex half-plane test; CellWrap of a 3-sector cell not overridden", "CellWrap around a Cell3Sec (concave outline)"),
+ "C20-mutM": ("update_inv_sum_diag shortcut through eigh for a constant diagonal", "constant diagonal with a non-Hermitian matrix"),
+ "C20-mutN": ("least_right_singular_vectors slices reversed views (S no longer indexed by V's columns)", "wide matrix with n >= columns - rows"),
+}
+
 def main():
     det, conf = {}, {}
     for line in open(os.path.expanduser("~/detect.log")):           # later lines (re-runs) override earlier ones
@@ -240,6 +281,7 @@ def main():
     both.update(ROUND4)
     both.update(ROUND5)
     both.update(ROUND6)
+    both.update(ROUND7)
     for mid, (what, needs) in sorted(both.items()):
         d = "/verif/seeded/%s" % mid
         if not os.path.isdir(d):
@@ -256,7 +298,7 @@ def main():
         for o in dd.get("obligations", []):
             kinds.append(o)
         meta = {
-            "property": mid[:3], "name": mid, "round": 6 if mid in ROUND6 else 5 if mid in ROUND5 else 4 if mid in ROUND4 else 3 if mid in ROUND3 else 2,
+            "property": mid[:3], "name": mid, "round": 7 if mid in ROUND7 else 6 if mid in ROUND6 else 5 if mid in ROUND5 else 4 if mid in ROUND4 else 3 if mid in ROUND3 else 2,
             "what_changed": what, "needs_to_manifest": needs,
             "caught_by": dd.get("obligations", []),
             "check_exit_with_change_applied": dd.get("exit"),
